@@ -41,12 +41,13 @@ FsOfJson(j) ==
                   [st |-> x.st, c |-> x.c, nok |-> x.nok, sok |-> x.sok]],
      extra |-> SeqRange(j.extra)]
 
-NoCall == [fn |-> "none"]
+NoCall == [fn |-> "none", id |-> 0]
 
 InitG == [scen |-> "", mode |-> "clean", src |-> <<>>, snap |-> <<>>, partial |-> {}, owner |-> <<>>, winners |-> <<>>, calls |-> <<>>,
           saved |-> <<>>, healthy |-> EmptyFs, damaged |-> FALSE, dmgdel |-> FALSE, dmghow |-> "",
           dmgkey |-> [t |-> "", b |-> -1, n |-> -1, h |-> "", s |-> ""], adopt |-> FALSE,
-          torn |-> {}]   \* versions half removed by a delete killed inside remove_dir_all
+          torn |-> {},   \* versions half removed by a delete killed inside remove_dir_all
+          ncall |-> 0]   \* calls seen so far (a call's number identifies it, e.g. as the owner of the lock)
 
 \* (TLC cannot hold values of different types in one set: where one monitor has several shapes of
 \* detail they are turned into strings where the monitor is stated)
@@ -118,8 +119,8 @@ OpMonitors(r, c) ==
   \* a delete removes only its own lock (g.owner[-1] = the actor whose write of GC_LOCK succeeded);
   \* --break-lock is the explicit request to remove somebody else's
   \cup If(c.fn = "delete" /\ ok /\ r.verb = "remove_file" /\ key.t = "Lock" /\ ~c.brk
-             /\ -1 \in DOMAIN g.owner /\ g.owner[-1] # r.actor,
-          {<<"GcRemovedOthersLock", <<r.actor, g.owner[-1]>> >>})
+             /\ -1 \in DOMAIN g.owner /\ g.owner[-1] # c.id,
+          {<<"GcRemovedOthersLock", <<r.actor, c.id, g.owner[-1]>> >>})
   \cup If(c.fn = "delete" /\ ok /\ c.dry /\ mut /\ key.t # "Lock", {<<"DryRunMutated", key.t>>})
   \cup If(c.fn = "none" /\ r.actor \notin {"init", "probe"} /\ ok /\ mut, {<<"ReaderMutated", key.t>>})
 
@@ -139,8 +140,8 @@ DoSrc(r) ==
 Expected(src, m) == TreeSel(src, Root, SeqRange(m))
 
 DoCall(r) ==
-    /\ g' = [g EXCEPT !.calls = Put(@, r.actor,
-                [fn |-> r.fn, H |-> r.H, M |-> r.M, S |-> r.S, match |-> r.match,
+    /\ g' = [g EXCEPT !.ncall = @ + 1, !.calls = Put(@, r.actor,
+                [id |-> g.ncall + 1, fn |-> r.fn, H |-> r.H, M |-> r.M, S |-> r.S, match |-> r.match,
                  bands |-> r.bands, dry |-> r.dry, injected |-> r.injected, brk |-> r.brk,
                  fs0 |-> fs, want |-> Expected(IF r.own_tree THEN TreeOfNodes(r.tree) ELSE g.src, r.match),
                  band |-> -1, nblk |-> 0])]
@@ -168,7 +169,7 @@ DoOp(r) ==
         lockw == c.fn = "delete" /\ r.verb = "write" /\ r.key.t = "Lock" /\ r.res = "ok" /\ r.inj = ""
         lockr == r.verb = "remove_file" /\ r.key.t = "Lock" /\ r.res = "ok" /\ r.inj = ""
         own2  == IF headw THEN Put(g.owner, r.key.b, r.actor)
-                 ELSE IF lockw THEN Put(g.owner, -1, r.actor)
+                 ELSE IF lockw THEN Put(g.owner, -1, c.id)
                  ELSE IF lockr THEN Del(g.owner, -1) ELSE g.owner
         \* a deleted version's id may be used again: forget what was known about it
         gone  == Bands(fs) \ Bands(f2)
